@@ -600,7 +600,10 @@ def m1(facts, tier):
                          "mask bit set only when arg_layout_compatible returned true" if ok else
                          f"compatibility mask bit is set {why}: arguments with possibly different layout are passed by pointer")
     if sites == 0:
-        yield ob(["C11", "C10"], "M1", "mask-set", "violation", "", "no site setting the compatibility mask found (anchor lost)")
+        folds = any(y.get("k") == "Call" and (callee(y) or "").rsplit("::", 1)[-1] in ("try_fold", "fold") for g in nego_fns(facts) for y in walk(g["body"]))
+        yield ob(["C11", "C10"], "M1", "mask-set", "undecided" if folds else "violation", "",
+                 "the compatibility mask is accumulated by an iterator fold: the guard of each bit is not modelled" if folds else
+                 "no site setting the compatibility mask found (anchor lost)")
 
 
 @rule("M2", ["C11", "C10"], floor=1, doc="arg_layout_compatible's general case decides on the *native* schemas of both sides (the memory layouts), "
@@ -615,11 +618,15 @@ def m2(facts, tier):
     for x in walk(f["body"]):
         if x.get("k") == "Match":
             sc = peel(x["e"])
-            if sc.get("k") == "Tuple" and all(peel(e).get("k") == "Var" and peel(e)["v"] in native for e in sc["es"]):
+            # `match (a_native, b_native)` or a flattened `match (a_native, b_native, a_effective, b_effective)`: the native schemas
+            # are the first two components
+            if sc.get("k") == "Tuple" and len(sc["es"]) >= 2 and all(peel(e).get("k") == "Var" for e in sc["es"]) \
+                    and [peel(e)["v"] for e in sc["es"][:2]] == ps[:2]:
                 for a in x["arms"]:
                     p = a["pat"]
-                    if p.get("k") == "Leaf" and all(s["p"].get("k") == "Bind" for s in p["subs"]):
-                        binds = [s["p"]["v"] for s in p["subs"]]
+                    if p.get("k") == "Leaf" and len(p["subs"]) >= 2 and all(s["p"].get("k") == "Bind" for s in p["subs"][:2]) \
+                            and all(s["p"].get("k") in ("Bind", "Wild") for s in p["subs"]):
+                        binds = [s["p"]["v"] for s in p["subs"][:2]]
                         for y in walk(a["body"]):
                             if y.get("k") == "Call" and callee(y) == "savefile::Schema::layout_compatible":
                                 args = [peel(z).get("v") for z in y["args"]]
@@ -808,8 +815,10 @@ def m4(facts, tier):
                 root = trace_root(facts, f, base_var(x["args"][i]))
                 if root is None:
                     bad.append(None)
-                elif not all(who in r and kind in r for r in str(root).split("|")):
+                elif not all(who in r and kind in r for r in str(root).split("|") if r != "None"):
                     bad.append(f"argument {i + 1} ({who}'s {kind} schema) is taken from `{root}`")
+                elif "None" in str(root).split("|"):
+                    bad.append(None)      # one of the ways the value arrives could not be traced (iterator adaptor): no verdict
             real = [b for b in bad if b]
             if real:
                 yield ob(["C11", "C10"], "M4", "layout-decision-inputs", "violation", where(f, x),
@@ -875,13 +884,23 @@ def m5(facts, tier):
                 for y in walk(loop["body"] if loop else f["body"]):
                     if y.get("k") == "LetS" and y["pat"].get("k") == "Bind" and y["pat"]["v"] == mv["v"]:
                         decl = y
-                ok = loop is not None and decl is not None and peel(decl.get("init") or {}).get("int") == 0
+                init0 = decl is not None and peel(decl.get("init") or {}).get("int") == 0
+                if decl is not None and not init0:
+                    # `let mask = args.zip(..).try_fold(0u64, |mask, ..| ..)?;`: a fold that starts at 0 for every method
+                    for z in walk(decl.get("init") or {}):
+                        if z.get("k") == "Call" and (callee(z) or "").rsplit("::", 1)[-1] in ("try_fold", "fold") and len(z.get("args", [])) >= 2 \
+                                and peel(z["args"][1]).get("int") == 0:
+                            init0 = True
+                ok = loop is not None and decl is not None and init0
                 yield ob(["C11", "C09"], "M5", "mask-per-method", "pass" if ok else "violation", where(f, x),
                          "compatibility mask starts at 0 for every method" if ok else
                          "the compatibility mask variable is not initialised to 0 inside the per-method loop: bits of earlier methods "
                          "carry over and arguments with different layouts are passed by pointer")
     if not found:
-        yield ob(["C11", "C09"], "M5", "mask-per-method", "violation", "", "no method record with a mask variable found (anchor lost)")
+        folds = any(y.get("k") == "Call" and (callee(y) or "").rsplit("::", 1)[-1] in ("try_fold", "fold") for g in nego_fns(facts) for y in walk(g["body"]))
+        yield ob(["C11", "C09"], "M5", "mask-per-method", "undecided" if folds else "violation", "",
+                 "the mask is the result of an iterator fold started at a literal: not modelled" if folds else
+                 "no method record with a mask variable found (anchor lost)")
 
 
 @rule("M6", ["C09", "C11"], floor=1, doc="the argument-count limit of a method equals the bit width of its by-reference mask: a method is rejected "
